@@ -1,8 +1,11 @@
 package helpers
 
+import "sync"
+
 type Response[R any] struct {
 	ch  chan R
 	res R
+	mx  sync.Mutex // protects res: the items of a batch share one Response
 }
 
 func NewResponse[R any](cap int) *Response[R] {
@@ -17,7 +20,9 @@ func (rc *Response[R]) Read() <-chan R {
 
 func (c *Response[R]) Send(res R) {
 	// Store the result in the result field for later access
+	c.mx.Lock()
 	c.res = res
+	c.mx.Unlock()
 	// Send to channel for immediate consumption
 	c.ch <- res
 }
@@ -28,6 +33,9 @@ func (c *Response[R]) Response() R {
 	if ok {
 		return result
 	}
+
+	c.mx.Lock()
+	defer c.mx.Unlock()
 
 	return c.res
 }
